@@ -142,16 +142,14 @@ def electrostatic_potential(
     hartree_potential *= one_density_matrix[:, :, None]
     hartree_potential = np.sum(hartree_potential, axis=(0, 1))
 
-    # silence warning for dividing by zero
-    old_settings = np.seterr(divide="ignore")
-    external_potential = (
-        nuclear_charges[None, :]
-        / np.sum((points[:, :, None] - nuclear_coords.T[None, :, :]) ** 2, axis=1) ** 0.5
-    )
-    # zero out potentials of elements that are too close to the nucleus
-    external_potential[external_potential > 1.0 / np.array(threshold_dist)] = 0
-    # restore old settings
-    np.seterr(**old_settings)
+    # silence warning for dividing by zero (the error state is restored on every path)
+    with np.errstate(divide="ignore"):
+        external_potential = (
+            nuclear_charges[None, :]
+            / np.sum((points[:, :, None] - nuclear_coords.T[None, :, :]) ** 2, axis=1) ** 0.5
+        )
+        # zero out potentials of elements that are too close to the nucleus
+        external_potential[external_potential > 1.0 / np.array(threshold_dist)] = 0
     # sum over potentials for each dimension
     external_potential = -np.sum(external_potential, axis=1)
 
